@@ -120,7 +120,8 @@ def run(script_path, out_path):
                 data["content"].append({"ty": "def.ax", "name": op["const"], "type": "bool"})
                 old = os.path.getmtime(path)
                 json.dump(data, open(path, "w", encoding="utf-8"))
-                os.utime(path, (old + 10, old + 10))
+                dt = op.get("mtime_delta", 10)      # a changed file may also carry an OLDER modification time (restored backup, cp -p)
+                os.utime(path, (old + dt, old + dt))
                 edits.append([op["name"], op["const"]])
                 ev["edits"] = list(edits)
             elif op["op"] == "items":
